@@ -1104,6 +1104,43 @@ def desugar_map_err_on_locals(fj):
     return changed
 
 
+def desugar_is_ok_and(fj):
+    """`R.is_ok_and(|x| P)` is `match R { Ok(x) => P, Err(_) => false }` (std's definition)."""
+    body = fj["body"]
+    blocks = body["blocks"]
+    changed = False
+    for b in list(blocks):
+        t = b["term"]
+        if t.get("k") != "call" or b["cleanup"] or t.get("target") is None or t.get("dest") is None or len(t.get("args") or []) != 2:
+            continue
+        v = t["func"].get("v") if t["func"].get("k") == "const" else None
+        if not isinstance(v, dict) or v.get("name") != "is_ok_and" or not (v.get("fn") or "").startswith("std::result::Result"):
+            continue
+        r_op, f_op = t["args"]
+        if r_op.get("k") != "move" or r_op["pl"]["p"] or f_op.get("k") not in ("move", "copy") or f_op["pl"]["p"]:
+            continue
+        R = r_op["pl"]["l"]
+        rty = body["locals"][R]["ty"]
+        if rty.get("adt") != "std::result::Result" or len(rty.get("args") or []) != 2:
+            continue
+        sp = t.get("sp")
+        l_d = len(body["locals"]); body["locals"].append({"ty": {"s": "isize", "k": "int"}})
+        l_t = len(body["locals"]); body["locals"].append({"ty": {"s": "(%s,)" % rty["args"][0]["s"], "k": "tuple", "args": [copy.deepcopy(rty["args"][0])]}})
+        okb, errb = len(blocks), len(blocks) + 1
+        ok_pl = {"l": R, "p": [{"down": 0, "name": "Ok"}, {"f": 0, "name": "0", "ty": rty["args"][0]["s"], "adt": "std::result::Result"}]}
+        blocks.append({"cleanup": False,
+                       "stmts": [{"k": "assign", "pl": {"l": l_t, "p": []}, "rv": {"rv": "aggregate", "agg": "tuple", "ops": [{"k": "move", "pl": ok_pl}]}, "sp": sp, "exp": True}],
+                       "term": {"k": "call", "func": {"k": "const", "ty": "fn", "v": {"fn": "std::ops::FnOnce::call_once", "full": "std::ops::FnOnce::call_once", "krate": "core", "local": False, "targs": [], "name": "call_once", "trait": "std::ops::FnOnce"}},
+                                "args": [copy.deepcopy(f_op), {"k": "move", "pl": {"l": l_t, "p": []}}], "dest": copy.deepcopy(t["dest"]), "target": t["target"], "sp": sp, "exp": False}})
+        blocks.append({"cleanup": False,
+                       "stmts": [{"k": "assign", "pl": copy.deepcopy(t["dest"]), "rv": {"rv": "use", "op": {"k": "const", "ty": "bool", "v": {"int": 0, "size": 1, "bool": False}}}, "sp": sp, "exp": True}],
+                       "term": {"k": "goto", "target": t["target"], "sp": sp, "exp": True}})
+        b["stmts"].append({"k": "assign", "pl": {"l": l_d, "p": []}, "rv": {"rv": "discr", "pl": {"l": R, "p": []}, "adt": "std::result::Result", "variants": [[0, "Ok"], [1, "Err"]]}, "sp": sp, "exp": True})
+        b["term"] = {"k": "switch", "discr": {"k": "move", "pl": {"l": l_d, "p": []}}, "targets": [[0, okb]], "otherwise": errb, "sp": sp, "exp": True}
+        changed = True
+    return changed
+
+
 def devirtualise_fn_items(fj):
     """`f(args)` where f is a local holding a function item (a function passed
     as `impl Fn*` to a helper that was spliced in): `Fn*::call*(f, (a, b))`
@@ -1319,6 +1356,17 @@ def inline_helpers(facts_json, anchors=None):
     by_path = {}
     for f in facts_json["fns"]:
         by_path.setdefault(f["path"], f)
+    anchors = set(anchors)
+    # a private anchor that kept its name but changed its signature (a flag parameter dropped, ...) is no longer the
+    # function the rules were written for: treat it like any other private helper (spliced into its callers; the rules
+    # then work on the flat views, as they do when the helper is absent)
+    _sigs = load_private_signatures()
+    for f in facts_json["fns"]:
+        sg = _sigs.get(f["path"])
+        if sg is not None and f["path"] in anchors and f.get("vis") != "pub":
+            if [i.get("s") for i in (f.get("inputs") or [])] != sg[0] or ((f.get("output") or {}).get("s")) != sg[1]:
+                anchors.discard(f["path"])
+                facts_json.setdefault("resigned_anchors", []).append(f["path"])
     restore_renamed_anchors(facts_json, anchors)
     by_path = {}
     for f in facts_json["fns"]:
@@ -1337,6 +1385,10 @@ def inline_helpers(facts_json, anchors=None):
         if f.get("body"):
             desugar_extend_array(f, by_path, stats, facts_json)
             desugar_mem_swap_replace(f)
+            if f["kind"] in ("Fn", "AssocFn") and desugar_is_ok_and(f):
+                for _ in range(MAX_ROUNDS):
+                    if not inline_closure_calls(f, by_path, stats):
+                        break
     for _ in range(MAX_ROUNDS):
         if not any([desugar_for_each(f, by_path, stats) or desugar_map_collect(f, by_path, stats) or desugar_try_for_each(f, by_path, stats) for f in facts_json["fns"]]):
             break
